@@ -161,6 +161,10 @@ fn judge(plan: &Plan, o: &Observed, rep: &mut Report) {
     if let Some(d) = alloc_violation(&o.alloc, o.server_bytes) {
         rep.violation(format!("C07/{}/alloc-out-of-proportion", plan.target), format!("fault {}: {}", plan.mutant.class, d), plan.to_json());
     }
+    if o.alloc.max_stack_depth > crate::props::c05::STACK_LIMIT {
+        rep.violation(format!("C07/{}/stack-depth-grows-with-input", plan.target), format!("fault {}: the stack was {} bytes deep at a transport call", plan.mutant.class, o.alloc.max_stack_depth), plan.to_json());
+    }
+    rep.max("deepest_stack_at_transport_call_bytes", o.alloc.max_stack_depth as f64);
     rep.max("largest_allocation_bytes", o.alloc.max_request as f64);
     rep.set("targets", plan.target.clone());
     rep.set("fault_classes", plan.mutant.class.split(':').next().unwrap_or("").to_string());
@@ -331,6 +335,36 @@ fn all_plans(seed: u64, quick: bool) -> Vec<Plan> {
         plans.push(Plan { target: "direct:ntlm.gss_unwrapex".into(), then_close: false, mutant: m.clone() });
         plans.push(Plan { target: "final-sealed".into(), then_close: false, mutant: m });
     }
+    // correctly sealed values in the neighbourhood of the certificate's key (same length, smaller and larger)
+    {
+        let key = crate::tls::identity(2).subject_public_key.clone();
+        let n = key.len();
+        let mut vals: Vec<(String, Vec<u8>)> = Vec::new();
+        for (name, d) in [("key-minus-1", -1i128), ("key", 0), ("key-plus-2", 2), ("key-minus-256", -256), ("key-plus-256", 256)].iter() {
+            // little-endian add on a copy
+            let mut v = key.clone();
+            let mut carry = *d;
+            let mut i = 0;
+            while carry != 0 && i < v.len() {
+                let cur = v[i] as i128 + carry;
+                v[i] = cur.rem_euclid(256) as u8;
+                carry = cur.div_euclid(256);
+                i += 1;
+            }
+            vals.push((name.to_string(), v));
+        }
+        let mut top_less = key.clone();
+        if let Some(x) = top_less.iter_mut().rev().find(|x| **x != 0) {
+            *x -= 1;
+        }
+        vals.push(("key-with-smaller-top-byte".into(), top_less));
+        vals.push(("zeros-of-key-length".into(), vec![0u8; n]));
+        vals.push(("ff-of-key-length".into(), vec![0xff; n]));
+        vals.push(("key-reversed".into(), key.iter().rev().cloned().collect()));
+        for (name, v) in vals {
+            plans.push(Plan { target: "final-keyed".into(), then_close: false, mutant: Mutant { class: format!("keyed-{}", name), bytes: v, at: 0 } });
+        }
+    }
     // correctly sealed plaintexts of every short length and of hostile content (a server that does hold the keys)
     for l in (0..48).chain([64usize, 91, 270, 294, 295, 1200, 16000].iter().cloned()) {
         for fill in [0u8, 0xff, 0x30].iter() {
@@ -342,6 +376,7 @@ fn all_plans(seed: u64, quick: bool) -> Vec<Plan> {
 }
 
 pub fn run(cfg: &Cfg) -> Report {
+    crate::tls::prewarm(false);
     let seed = cfg.seed;
     let mut total = Report::new();
     if cfg.wants(0) {
